@@ -1,6 +1,7 @@
 use super::super::error::Error;
 use super::super::reader::{ByteReader, Cursor};
 use super::super::types::ParseResult;
+use super::alpha_bytes;
 use crate::types::*;
 
 pub fn parse_blp0<'a, F>(
@@ -40,8 +41,7 @@ fn parse_raw1_image(
     let n = blp_header.mipmap_pixels(mimpmap_number);
     let indexed_rgb = reader.read_bytes(n as usize)?;
 
-    let an = (n * blp_header.alpha_bits()).div_ceil(8);
-    let indexed_alpha = reader.read_bytes(an as usize)?;
+    let indexed_alpha = reader.read_bytes(alpha_bytes(n, blp_header.alpha_bits())?)?;
 
     Ok(Raw1Image {
         indexed_rgb,
